@@ -174,6 +174,16 @@ impl<'c> Slice<'c> {
             Vec::new()
         };
 
+        for record in &records {
+            // In a multi-reference slice, a record is also decoded without its reference sequence
+            // (see `get_record_reference_sequence`).
+            if reference_sequence_context.is_many() && record.reference_sequence.is_none() {
+                continue;
+            }
+
+            validate_record_reference_sequence(record)?;
+        }
+
         resolve_mates(&mut records)?;
 
         for i in unnamed_record_indices {
@@ -470,6 +480,83 @@ fn get_record_reference_sequence<'c>(
     };
 
     Ok(Some(ReferenceSequence::External { sequence }))
+}
+
+// Checks that the bases of a record can be rebuilt: the region the record covers must be in its
+// reference sequence, or, without a reference sequence, the features must hold all the bases.
+fn validate_record_reference_sequence(record: &Record<'_>) -> io::Result<()> {
+    use crate::record::calculate_alignment_span;
+
+    if record.bam_flags.is_unmapped() || record.cram_flags.sequence_is_missing() {
+        return Ok(());
+    }
+
+    let (reference_start, reference_sequence_len) = match &record.reference_sequence {
+        Some(ReferenceSequence::Embedded {
+            reference_start,
+            sequence,
+        }) => (usize::from(*reference_start), sequence.len()),
+        Some(ReferenceSequence::External { sequence }) => (1, sequence.len()),
+        None => return validate_record_bases(record),
+    };
+
+    let alignment_start = record
+        .alignment_start
+        .map(usize::from)
+        .ok_or_else(|| io::Error::new(io::ErrorKind::InvalidData, "missing alignment start"))?;
+
+    let alignment_span = calculate_alignment_span(record.read_length, &record.features);
+
+    // The 0-based, exclusive end of the record in the reference sequence.
+    let end = alignment_start
+        .checked_sub(reference_start)
+        .map(|start| start + alignment_span);
+
+    if end.is_some_and(|end| end <= reference_sequence_len) {
+        Ok(())
+    } else {
+        Err(io::Error::new(
+            io::ErrorKind::InvalidData,
+            "alignment is out of bounds of the reference sequence",
+        ))
+    }
+}
+
+// Checks that the features of a record cover the read, i.e., no base is taken from a reference
+// sequence.
+fn validate_record_bases(record: &Record<'_>) -> io::Result<()> {
+    let mut read_position = 1;
+
+    for feature in &record.features {
+        let len = match feature {
+            Feature::Scores { .. } | Feature::QualityScore { .. } => continue,
+            Feature::Substitution { .. } => return Err(missing_reference_sequence_error()),
+            Feature::Bases { bases, .. }
+            | Feature::Insertion { bases, .. }
+            | Feature::SoftClip { bases, .. } => bases.len(),
+            Feature::ReadBase { .. } | Feature::InsertBase { .. } => 1,
+            Feature::Deletion { .. }
+            | Feature::ReferenceSkip { .. }
+            | Feature::Padding { .. }
+            | Feature::HardClip { .. } => 0,
+        };
+
+        if usize::from(feature.position()) != read_position {
+            return Err(missing_reference_sequence_error());
+        }
+
+        read_position += len;
+    }
+
+    if read_position == record.read_length + 1 {
+        Ok(())
+    } else {
+        Err(missing_reference_sequence_error())
+    }
+}
+
+fn missing_reference_sequence_error() -> io::Error {
+    io::Error::new(io::ErrorKind::InvalidData, "missing reference sequence")
 }
 
 fn validate_sequence(sequence: &[u8], expected_checksum: &[u8; 16]) -> io::Result<()> {
